@@ -561,6 +561,11 @@ def upper_bound(fn, op, depth=12):
     p = op_place(op)
     if p is None or depth <= 0:
         return None
+    if len(p) > 1 and not (len(p) == 2 and p[1] == "f:0"):
+        # a member of a tuple / struct / Ok(..) built in this function (the landing of an inlined helper's result)
+        o2 = _through_aggs(fn, p)
+        if o2 is not None and o2 != op and ("k" in o2 or len(op_place(o2)) == 1):
+            return upper_bound(fn, o2, depth - 1)
     l = p[0]
     tk = fn.local_ty(l)["k"] if len(p) == 1 else None
     best = INT_MAX.get(tk) if tk and tk.startswith("u") else None
@@ -1026,6 +1031,53 @@ def g_sub(fn, edge):
     return False, ""
 
 
+_CHARB_SRC = re.compile(r"^core::str::<impl str>::(find|rfind|len)$|^alloc::string::String::len$|^core::str::<impl str>::(floor_char_boundary|ceil_char_boundary)$")
+
+
+def g_charb(fn, edge):
+    """bounds of a str / String slice are character boundaries: the constant 0, the length of a string, a position returned by
+    find / rfind (a match starts at a boundary), or a value tested with is_char_boundary on a dominating edge"""
+    c = edge.call
+    if c is None or len(c.args) < 2:
+        return False, "string slice with an index the checker does not understand"
+    l = op_base(c.args[1])
+    d = fn.single_def(l) if l is not None else None
+    if not d or d[1] == "term" or d[2]["k"] != "agg":
+        return False, "string slice by a range value built elsewhere: character boundaries not established"
+    bad = []
+    for o in d[2]["ops"]:
+        v = const_int(o)
+        if v == 0:
+            continue
+        if v is not None:
+            bad.append("byte offset %d" % v)
+            continue
+        sym = canon(fn, o)
+        okb = False
+        if sym and sym[0] == "l":
+            dc = fn.def_call(sym[1])
+            if dc is not None and _CHARB_SRC.search(dc.path or ""):
+                okb = True
+            dd = fn.single_def(sym[1])
+            if not okb and dd and dd[1] != "term" and dd[2]["k"] == "use":
+                pp = op_place(dd[2]["a"])
+                if pp and len(pp) == 3 and pp[1] == "d:Some" and pp[2] == "f:0":
+                    pc = fn.def_call(pp[0])
+                    if pc is not None and re.search(r"^core::str::<impl str>::(find|rfind)$", pc.path or ""):
+                        okb = True
+            if not okb:
+                for x in fn.calls:
+                    if re.search(r"^core::str::<impl str>::is_char_boundary$", x.path or "") and len(x.args) > 1 and canon(fn, x.args[1]) == sym and x.dest:
+                        for (sb, tt, ft) in bool_branch(fn, x.dest[0]):
+                            if edge_dominates(fn, sb, tt, edge.bb):
+                                okb = True
+        if not okb:
+            bad.append("a computed byte offset")
+    if bad:
+        return False, "string sliced at %s: when that byte is inside a multi-byte character the slice panics (text from a peer is valid UTF-8, not ASCII)" % ", ".join(bad)
+    return True, "slice bounds are character boundaries"
+
+
 def g_period(fn, edge):
     """tokio::time::interval(period): the period is a Duration built from a positive constant (Duration::from_secs(1)); anything
     computed (a configured timeout, a quotient, min/max of durations) can be zero"""
@@ -1103,6 +1155,12 @@ def classify(fn, edge):
         if cls in ("BYTES-CONSUME", "INDEX", "VEC-POS"):
             bo = bytebudget.bufops(fn)
             ok, why = bo.decide(edge.bb)
+            if ok and cls == "INDEX" and (edge.detail or "") in ("str", "alloc::string::String"):
+                # a string slice also panics when a bound falls inside a multi-byte character
+                ok2, why2 = g_charb(fn, edge)
+                if not ok2:
+                    return False, why2, ""
+                why = why + "; " + why2
             if ok:
                 return True, why, "G-len"
             return False, why, ""
